@@ -94,6 +94,11 @@ def gate_of_int(call: ast.Call, folder):
         if PC.has_lit(clauses, "$R.fullmatch($V) is None", False) is None and PC.has_lit(clauses, "$R.fullmatch($V)", True) is None:
             return None
         return rx, "fullmatch", folder.eval(mod, b["K"]), e
+    # int(m.group(k)) / int(m.group()) / int(m[k]) / (int(s) for s in m.groups()) with `m = R.match|fullmatch|search(v)` the only definition
+    # of m and `m` (or `m is not None`) established: the converted text is in the language of the group (of the whole pattern)
+    mo = _match_object(arg, call, folder)
+    if mo is not None:
+        return mo
     inner = arg
     while isinstance(inner, ast.Call) and isinstance(inner.func, ast.Name) and inner.func.id in ("bytes", "str") and inner.args:
         inner = inner.args[0]
@@ -109,6 +114,64 @@ def gate_of_int(call: ast.Call, folder):
     if any(l.pos and l.text == f"{t}.isdigit()" for l in PC.units(clauses)) and any(l.pos and l.text == f"{t}.isascii()" for l in PC.units(clauses)):
         return RegexConst("[0-9]+", 0), "fullmatch", None, None
     return None
+
+
+def _class_const(call, expr, folder):
+    """RegexConst of `cls.X` / `self.X` (a class constant of the enclosing class) or of a module-level name."""
+    if isinstance(expr, ast.Attribute) and isinstance(expr.value, ast.Name) and expr.value.id in ("cls", "self") and getattr(call, "fn", None) is not None and call.fn.cls is not None:
+        for ci in folder.repo.mro(call.fn.cls):
+            if expr.attr in ci.attrs:
+                v = folder.eval(ci.module, ci.attrs[expr.attr])
+                return v if isinstance(v, RegexConst) else None
+        return None
+    try:
+        v = folder.eval(call.mod, expr)
+    except NotConst:
+        return None
+    return v if isinstance(v, RegexConst) else None
+
+
+def _match_object(arg, call, folder):
+    which = None  # group index, "whole" or "all"
+    m = None
+    if isinstance(arg, ast.Call) and isinstance(arg.func, ast.Attribute) and arg.func.attr == "group" and isinstance(arg.func.value, ast.Name):
+        m = arg.func.value.id
+        if not arg.args:
+            which = "whole"
+        else:
+            try:
+                which = folder.eval(call.mod, arg.args[0])
+            except NotConst:
+                return None
+            which = "whole" if which == 0 else which
+    elif isinstance(arg, ast.Subscript) and isinstance(arg.value, ast.Name) and isinstance(arg.slice, ast.Constant) and isinstance(arg.slice.value, int):
+        m = arg.value.id
+        which = "whole" if arg.slice.value == 0 else arg.slice.value
+    elif isinstance(arg, ast.Name):
+        # the variable of a comprehension over m.groups()
+        for comp in (x for x in ast.walk(call.fn.node) if isinstance(x, (ast.GeneratorExp, ast.ListComp, ast.SetComp))) if getattr(call, "fn", None) is not None else []:
+            if any(c is call for c in ast.walk(comp.elt)):
+                for g_ in comp.generators:
+                    it = g_.iter
+                    if isinstance(g_.target, ast.Name) and g_.target.id == arg.id and isinstance(it, ast.Call) and isinstance(it.func, ast.Attribute) and it.func.attr == "groups" and isinstance(it.func.value, ast.Name) and not it.args:
+                        m, which = it.func.value.id, "all"
+    if m is None or getattr(call, "fn", None) is None:
+        return None
+    defs = [v for _d, v in norm.fn_defs(call.fn.node).defs.get(m, []) if v is not None]
+    if len(defs) != 1 or not (isinstance(defs[0], ast.Call) and isinstance(defs[0].func, ast.Attribute) and defs[0].func.attr in ("match", "fullmatch", "search")):
+        return None
+    rx = _class_const(call, defs[0].func.value, folder)
+    if rx is None:
+        return None
+    site = call
+    for comp in ast.walk(call.fn.node):
+        if isinstance(comp, (ast.GeneratorExp, ast.ListComp, ast.SetComp)) and any(c is call for c in ast.walk(comp)):
+            site = comp
+    units = list(PC.units(PC.pc(site, raw=True))) + list(PC.units(PC.pc(site)))
+    dtxt = (norm.raw(defs[0]), norm.raw(norm.subst(defs[0], call)))
+    if not any((l.pos and l.text in (m, f"{m} is not None") + dtxt) or (not l.pos and l.text in (f"{m} is None", f"not {m}") + tuple(f"{d} is None" for d in dtxt)) for l in units):
+        return None
+    return rx, "matchobject", which, None
 
 
 def int_cannot_raise(call: ast.Call, folder) -> bool:
@@ -127,6 +190,20 @@ def int_cannot_raise(call: ast.Call, folder) -> bool:
             return False
     if base in (2, 4, 8, 16, 32):
         return True
+    if mode == "matchobject":
+        bound = R.lang("[0-9]{0,64}" if not isinstance(rx.pattern, bytes) else b"[0-9]{0,64}", 0, "fullmatch")
+        import re as _re
+        ngroups = _re.compile(rx.pattern, rx.flags).groups
+        def whole():
+            # the matched text is in the language of the pattern without its zero-width assertions (a superset: sound for an upper bound)
+            pat = rx.pattern
+            strip = _re.compile(rb"\(\?<?[=!][^()]*\)" if isinstance(pat, bytes) else r"\(\?<?[=!][^()]*\)")
+            try:
+                return R.lang(pat, rx.flags, "fullmatch")
+            except AnalysisError:
+                return R.lang(strip.sub(b"" if isinstance(pat, bytes) else "", pat), rx.flags, "fullmatch")
+        langs = [whole()] if group == "whole" else [R.group_lang(rx.pattern, rx.flags, k) for k in (range(1, ngroups + 1) if group == "all" else [group])]
+        return bool(langs) and all(R.subset(l_, bound)[0] for l_ in langs)
     if group is not None:
         # a capture group: bounded iff its sub-language is finite (single \d)
         gl = R.group_lang(rx.pattern, rx.flags, group)
